@@ -282,7 +282,7 @@ def replay(case, ctx):
 
 
 def plan(tier, seed):
-    n, per = (14, 300) if tier == "quick" else (14, 25000)
+    n, per = (14, 1800) if tier == "quick" else (14, 25000)
     sh = [{"kind": "mem", "kinds": [["tag"], ["tag", "tag2"]][k % 2], "n": per} for k in range(n)]
     sh += [{"kind": "mem", "kinds": ["vanish"], "n": per} for _ in range(2)]
     return sh
